@@ -13,7 +13,7 @@ from mc.props.c03 import same_node, same_value, shape
 from valida.datapath import DataPath
 
 META = {
-    "rule": "every path (length bound) over the 42-part alphabet + 6 labelled parts + 7 parts with path-like literal / data-path / bool-type arguments, built by the API and by part "
+    "rule": "every path (length bound) over the 42-part alphabet + 6 labelled parts + 7 parts with path-like literal / data-path / bool-type arguments, and every comparison callable in every condition position of a part (map key / value, list index / value, map-or-list key / index / value: ~290 parts), built by the API and by part "
             "specs; a case is one (path, construction) pair serialised with to_part_specs and to_json_like, rebuilt "
             "and compared on every document of the family; non-trivial = serialisation returned (did not refuse) "
             "and the rebuilt path was compared on all documents",
@@ -74,8 +74,19 @@ APPROX_PARTS = [("list", None, T.leaf("Value", "equal_to_approx", 1.0, 0.5), Non
                 ("mol", None, None, T.leaf("Value", "in_range", 0, 3), None)]
 
 
+# type arguments that have no name in specs: such parts can only be built through the API, and serialising them
+# has to refuse
+UNNAMED_TYPE_PARTS = [("list", None, T.leaf("Value", "is_instance", tuple), None),
+                      ("map", None, T.leaf("Value", "is_instance", int, tuple), None),
+                      ("mol", None, None, T.leaf("Value", "keys_is_instance", tuple), None),
+                      ("map", T.leaf("KeyDataType", "is_instance", type), None, None),
+                      ("list", None, T.leaf("ValueDataType", "equal_to", tuple), None),
+                      ("map", None, T.leaf("ValueDataType", "in_", [int, tuple]), None),
+                      ("list", None, T.leaf("ValueDataType", "in_range", lower=tuple, upper=2), None)]
+
+
 def units(tier):
-    return gen.chunks(len(_paths(tier)), 6) + [["NOISE"]]
+    return gen.chunks(len(_paths(tier)), 6) + [["NOISE"]] + [["CALL", lo, hi] for lo, hi in gen.chunks(len(gen.callable_parts()), 12)]
 
 
 def run_unit(unit, tier):
@@ -86,9 +97,22 @@ def run_unit(unit, tier):
         res.count("transitions", make_noise())
         ps = [T.path((p,)) for p in APPROX_PARTS + PARTS[::3]] + [T.path((("prim", "a"), p)) for p in APPROX_PARTS]
         docs = family("quick")
+        for pi, p in enumerate(UNNAMED_TYPE_PARTS):
+            check_case(res, T.path((p,)), "api", docs, key=("UNNAMED", pi))
+            check_case(res, T.path((("prim", "a"), p)), "api", docs, key=("UNNAMED", pi, "a"))
         for pi, p in enumerate(ps):
             for how in ("api", "spec"):
                 check_case(res, p, how, docs, key=("NOISE", pi, how), noise=True)
+        return res
+    if unit[0] == "CALL":
+        # every comparison callable in every condition position of a part
+        cps = gen.callable_parts()
+        docs = family("quick")
+        for pi in range(unit[1], unit[2]):
+            for how in ("api", "spec"):
+                check_case(res, T.path((cps[pi],)), how, docs, key=("CALL", pi, how))
+                if tier == "thorough":
+                    check_case(res, T.path((("prim", "a"), cps[pi])), how, docs, key=("CALL", pi, how, "a"))
         return res
     ps = _paths(tier)
     docs = family(tier)
